@@ -232,7 +232,7 @@ func c14Forward(c c14Case, o *Outcome) *Outcome {
 		if c.Code == 0 && out.Count != 7 {
 			return o.failf("OK response lost: %v", out)
 		}
-		if c.Code != 0 {
+		if c.Code != 0 && !strings.ContainsAny(wantMsg, "\r\n\t") {
 			if st, _ := status.FromError(err); st.Message() != wantMsg {
 				return o.failf("message %q became %q", wantMsg, st.Message())
 			}
@@ -492,7 +492,10 @@ func genC14(t *rapid.T) c14Case {
 	}
 	code := rapid.OneOf(rapid.Uint32Range(0, 20), rapid.Uint32(), rapid.SampledFrom(c14Codes)).Draw(t, "code")
 	return c14Case{Mode: "forward", Code: code,
-		Msg:       rapid.OneOf(rapid.Just(""), rapid.Just(":"), rapid.StringMatching(`[a-zA-Z0-9:%;,./ _-]{0,40}[a-zA-Z0-9]`)).Draw(t, "msg"),
+		Msg: rapid.OneOf(rapid.Just(""), rapid.Just(":"), rapid.StringMatching(`[a-zA-Z0-9:%;,./ _-]{0,40}[a-zA-Z0-9]`),
+			// messages of several lines and other control characters (validation reports, joined errors, stack traces): what
+			// becomes of such a message in an HTTP header is C02's subject, the code has to come through all the same
+			rapid.SampledFrom([]string{"line1\nline2", "a\r\nb", "tab\there", "first: bad\nsecond: worse\n", "\"quoted\"", "back\\slash"})).Draw(t, "msg"),
 		Cancelled: rapid.Bool().Draw(t, "cancelled"),
 		Renderer:  rapid.SampledFrom([]string{"default", "nothing", "teapot", "option-default"}).Draw(t, "renderer"),
 		Carrier:   rapid.SampledFrom([]string{"server", "mux"}).Draw(t, "carrier"),
